@@ -12,7 +12,7 @@ from .arrdom import AArr, ArrInterp
 from .resultrun import Tagged, build_edge_case_handler, metric_objs
 
 INFO = {
-    "explanation": "Delegated (round 4): R08.4/R01.2 - on the zero-instance shortcut and through the result stage the prediction/reference arrays and counts reach the result uncrossed (the global metrics' empty-side handling depends on which side is which). PanopticaResult.__init__ and _calc_global_bin_metric are run abstractly with abstract label arrays, symbolic per-metric edge-case handlers and split emptiness tests (4 combinations of empty prediction / empty reference): (R13.1) the metric kernel receives the !=0-binarised *copies* of the full reference and prediction arrays in their own parameter slots, without narrowing casts, independent of tp/lists; (R13.2) empty prediction / empty reference / both empty yield the handler's EMPTY_PRED / EMPTY_REF / NO_INSTANCES value of that metric; (R13.3) a metric not requested is not computed; requested ones are stored under global_bin_<name>. Further: R13.2 also with a handler that prescribes None; delegated R05.4/R05.6 (dtype before labelling), R10.1/R10.3 (cropped once, crop covers both), R15.8.",
+    "explanation": "Delegated (round 4): R08.4/R01.2 - on the zero-instance shortcut and through the result stage the prediction/reference arrays and counts reach the result uncrossed (the global metrics' empty-side handling depends on which side is which). PanopticaResult.__init__ and _calc_global_bin_metric are run abstractly with abstract label arrays, symbolic per-metric edge-case handlers and split emptiness tests (4 combinations of empty prediction / empty reference): (R13.1) the metric kernel receives the !=0-binarised *copies* of the full reference and prediction arrays in their own parameter slots, without narrowing casts, independent of tp/lists; (R13.2) empty prediction / empty reference / both empty yield the handler's EMPTY_PRED / EMPTY_REF / NO_INSTANCES value of that metric; (R13.3) a metric not requested is not computed; requested ones are stored under global_bin_<name>. Further: R13.2 also with a handler that prescribes None; delegated R05.4/R05.6 (dtype before labelling), R10.1/R10.3 (cropped once, crop covers both), R15.8. Round 8: R15.8 kernel purity is delegated (a new metric member's kernel must not write into the masks it is given, neither directly nor in a function it calls).",
     "trusted_base": ["Python semantics of the modelled AST subset", "numpy: copy/astype create new arrays, x[x!=0]=1 binarises in place, sum()/any()/count_nonzero decide emptiness of a non-negative array"],
     "assumptions": ["label arrays are non-negative integer arrays (checked by the pair classes)"],
     "not_decided": ["the metric values themselves (C06/C07)"],
